@@ -1011,12 +1011,14 @@ func TestWire(t *testing.T) {
 				for j := 0; j < k; j++ {
 					var u unit
 					if x.chance("err-soup", 1, 2) {
-						u = x.soup()
-					} else {
+						u = x.steer(x.soup(), j == 0)
+					}
+
+					if !u.Accountable {
 						u = unit{B: []byte(fmt.Sprintf("e%d BOGUS\r\n", j)), Kind: unitSoup, Label: "soup", Accountable: true, Tag: fmt.Sprintf("e%d", j), HasTag: true}
 					}
 
-					s.Units = append(s.Units, x.steer(u, j == 0))
+					s.Units = append(s.Units, u)
 				}
 
 				if x.chance("err-tail", 1, 2) {
